@@ -30,7 +30,7 @@ def _one(item):
         mdit = canon.freeze(canon.from_mdit(text))
     except Exception as ex:  # pylint: disable=broad-except
         mdit = "MDIT-EXC:%s" % type(ex).__name__
-    return {"exc": a["exc"], "impl": a.get("tree"), "html_exc": a.get("html_exc"), "model": model, "mdit": mdit}
+    return {"exc": a["exc"], "impl": a.get("tree"), "html_exc": a.get("html_exc"), "proj_exc": a.get("proj_exc"), "model": model, "mdit": mdit}
 
 
 def _inline_one(rec):
@@ -51,6 +51,8 @@ def _inline_one(rec):
         a = psweep.analyse(text, want=("html",))
         if a["exc"]:
             out[ctxname] = ("does-not-parse", None)
+        elif a.get("proj_exc"):
+            out[ctxname] = ("skip", None)          # the harness could not read the HTML back: no verdict
         elif a.get("tree") == want:
             out[ctxname] = ("agree", None)
         else:
@@ -91,7 +93,7 @@ def run(pid, tier):
     _inline_part(ctx, tier)
     docs = docspace.model_docs(ctx, tier)
     res = impl.pmap(_one, docs, procs=16, chunksize=200)
-    cnt = {"agree": 0, "violation": 0, "contested": 0, "does-not-parse": 0, "model-error": 0}
+    cnt = {"agree": 0, "violation": 0, "contested": 0, "does-not-parse": 0, "model-error": 0, "projection-error": 0}
     nontriv = 0
     for (text, rec), o in zip(docs, res):
         if o["exc"]:
@@ -99,6 +101,9 @@ def run(pid, tier):
             continue
         if isinstance(o["model"], str):
             cnt["model-error"] += 1
+            continue
+        if o.get("proj_exc"):
+            cnt["projection-error"] += 1        # the harness could not read the implementation's HTML back into a tree: not judged
             continue
         if o["model"] and any(n[0] in ("bq", "ul", "ol") for n in o["model"]):
             nontriv += 1
@@ -112,6 +117,8 @@ def run(pid, tier):
         sig = "%s :: expected %s :: got %s" % (psweep.doc_shape(text), psweep.kinds(o["model"]) or "(nothing)",
                                                psweep.kinds(o["impl"]) if o["impl"] is not None else "HTML-ERROR")
         ctx.violation(sig, {"document": text, "expected_tree": o["model"], "implementation_tree": o["impl"], "html_error": o["html_exc"]})
+    if cnt["projection-error"] > 0.002 * len(docs):
+        raise Machinery("the HTML projection failed on %d of %d documents" % (cnt["projection-error"], len(docs)))
     if cnt["model-error"]:
         raise Machinery("%d model trees could not be canonicalised" % cnt["model-error"])
     total = len(docs)
